@@ -2379,6 +2379,26 @@ func c14_runC14(e *Env) {
 		"each program runs with the FSImporter, every twin tree and every fourth other program also with the LocalImporter on a temp tree, and the Spec (incl. the reference semantics " +
 		"\"every module path has its own variables\" on the plain fragment) is evaluated on both; the importers alone are given seeded sequences of names (pointer identity of the code objects); " +
 		"distinct by the full source text of script and modules, non-trivial when the script has >= 2 import statements or some module imports another"
+	e.R.Rule += "; stream spellmix: for every file of a fixed module tree (two extensions, a file next to a directory of the same name, shared last components) " +
+		"every candidate statement — 8-11 statement forms x ~35 path texts per module (plain, with each extension spelled out, other/upper-case/doubled extensions, './', trailing '/', " +
+		"doubled and dotted separators, '..' detours, quote characters, blanks, NUL, backslashes) — is probed: the REAL parser decides whether it is accepted and a run of the statement alone " +
+		"decides which file it reaches (both compared with C14.accepted / C14.reachedFile); the statements kept are grouped by the file reached and mixed within one evaluation: every ordered pair " +
+		"of two path texts of one file (pairs differing only in the form: sampled in quick), the same pairs split between the script and a hub module (transitive), and seeded mixes of 3-6 imports " +
+		"over 1-3 files partly inside hub modules, the module counter bumped through every alias; judged by FILE (one body execution per file, every alias of a file sees the same counter); " +
+		"distinct by the full text of script and hub modules, all non-trivial; probes are non-trivial when accepted"
+	if only := os.Getenv("VERIF_C14_ONLY"); only != "" { // development aid: run a single stream
+		e.R.Note("VERIF_C14_ONLY=%s: only that stream was run", only)
+		switch only {
+		case "spell":
+			c14Spell1(e)
+		case "graph":
+			c14Graph(e)
+		case "spellmix":
+			c14SpellMix(e)
+		}
+		return
+	}
 	c14Spell1(e)
 	c14Graph(e)
+	c14SpellMix(e)
 }
